@@ -174,6 +174,12 @@ def SM(text, mappings, sources=('o.js',), contents=(), names=(), root=None, max=
 # consecutive lines from different files whose original lines are consecutive (the lines-only encoder's 'next line' shortcut)
 TREES_QUICK.append(('concat[orig ?/,sms(b -> o.js line 2)]', CC(O('?\n'), SM('b', 'AACA', ('o.js',)))))
 
+C13_QUICK += [
+    ('unwrap:concat[replace(sms(ab/ trailing newline, zero-width last segment),[]),orig c b]', CC(RP(SM('ab\n', 'AAAA;?A?A', ('o.js',))), O('c', 'b.js')), 'unwrap'),
+    ('unwrap:concat[boxed(sms(ab/cd)),replace(orig ?;,[]),cached(rawstr1)]', CC(BX(SM('ab\ncd', 'AAAA,?AAA;?ACA', ('o.js',))), RP(O('?;', 'b.js')), CA(RS('!'))), 'unwrap'),
+    ('inner:single[sms(abcd named,unnamed,named at one original position)]', CC(SM('abcd', 'AAAAA,CAAA,CAAAA,C', ('o.js',), (), ('n1',))), 'inner'),
+]
+
 SMS_QUICK = [
     ('sms(abcd/ef,2 lines,names,root r)', SM('abcd\nef', 'AAAA,?AA??;?AAA', ('o.js', 'p.js'), ('xyz\nuv',), ('nm', 'n2'), 'r')),
     ('sms(ab//cd/,empty line,root empty)', SM('ab\n\ncd\n', 'A,?AAA;;?AAA?', ('o.js',), (), ('nm',), '')),
@@ -293,7 +299,8 @@ COMBINED_THOROUGH = [
     ('combined: inner source index symbolic, 2 inner sources', SMC('abcd', 'AAAA,CAAC', ('i.js',), 'A?AA,C?AC', ('q.js', 'r.js'), 'xyzw', inner_contents=('qq', 'rr'), max=4)),
     ('combined: remove original, outer second source, symbolic', SMC('ab\ncd', 'AAAA,CCA?;ADC?', ('i.js', 'o.js'), '?AAA;AACA', ('q.js',), 'xyz\nuv', remove=True, outer_contents=('xyz\nuv', 'oo'))),
     ('combined: names on both sides symbolic column', SMC('abcdef', 'AAAAA,CAA?C,CAA?', ('i.js',), 'AAAAA,CAACC,CAAC', ('q.js',), 'xyzwvu', outer_names=('xy', 'zw'), inner_names=('n0', 'n1'), inner_contents=('xyzwvu',))),
-    ('combined with sourceRoot', SMC('ab', 'AAAA,CAA?', ('i.js',), 'AAAA,CAAE', ('q.js',), 'xyz', root='r')),
+    ('combined with sourceRoot, rooted name', SMC('ab', 'AAAA,CAA?', ('i.js',), 'AAAA,CAAE', ('q.js',), 'xyz', root='r', name='r/i.js')),
+    ('combined with sourceRoot, unrooted name (nothing points into the inner source)', SMC('ab', 'AAAA,CAA?', ('i.js',), 'AAAA,CAAE', ('q.js',), 'xyz', root='r')),
     ('combined under replace', RP(SMC('abcd', 'AAAA,CAA?', ('i.js',), 'AAAA,CAAE', ('q.js',), 'xyzw', inner_contents=('0123456',)), (Q, Q, 'X'))),
 ]
 
@@ -605,6 +612,8 @@ ROPE_QUICK = [
     # a line yielded by lines() is a Rope of its own: every observer must treat it like its flat string (offsets, len, bytes)
     ('lines as ropes: last line across pieces', [['from_iter', ['x\n?b', 'c?']], ['line', 0, 1], ['line', 0, 0], ['from_iter', ['?\n', 'a\n?', '?', '?b']], ['line', 3, 2], ['line', 3, 1]], ALLOBS),
     ('lines as ropes: middle line across pieces, slice of a line', [['from_iter', ['a\n?', '?', '?\n?', '\n']], ['line', 0, 1], ['line', 0, 2], ['line', 0, 3], ['slice', 1, '?', '?']], ALLOBS),
+    # binary observers over multi-byte text cut into different pieces (a cut of one rope inside a character of the other)
+    ('multi-byte pairs', [['from_iter', ['\u00e9', '?b']], ['from_iter', ['a\u20ac', '']], ['from_iter', ['\u20acb', 'y']], ['from_iter', ['\u00e9', 'x']], ['from', '\u00e9?b']], ['basic', 'pairs']),
 ] + [('slice form %s' % f_, [['from_iter', ['?a', '\u00e9?', '']], ['slice', 0, '?', '?', f_]], ['basic', 'bytes']) for f_ in ('to', 'to_incl', 'from', 'incl')] + [
     ('light slice form %s' % f_, [['from', '?\u00e9?'], ['slice', 0, '?', '?', f_]], ['basic']) for f_ in ('to', 'to_incl', 'from', 'incl')]
 ROPE_THOROUGH = [
